@@ -416,7 +416,9 @@ fn run_json<T: Reg + Decode>(be: &str, st: &[W], inp: &[u8], seed: u64) -> Value
 	let r: Result<Result<T, Error>, ()> = match be {
 		"slice" => {
 			let mut s = inp;
+			// no wrapper layer: decode statically, so that the back-end's own hooks are reachable
 			let r = guarded(|| {
+				if st.is_empty() { return (T::decode(&mut s), crate::recin::Obs::default()) }
 				let (r, o) = run_stack::<T>(st, &mut s);
 				(r, o)
 			});
@@ -428,7 +430,7 @@ fn run_json<T: Reg + Decode>(be: &str, st: &[W], inp: &[u8], seed: u64) -> Value
 		},
 		"rec" | "unk" => {
 			let mut ri = RecIn::new(inp, be == "rec");
-			let r = guarded(|| run_stack::<T>(st, &mut ri));
+			let r = guarded(|| if st.is_empty() { (T::decode(&mut ri), crate::recin::Obs::default()) } else { run_stack::<T>(st, &mut ri) });
 			consumed = Some(ri.pos);
 			r.map(|(r, o)| {
 				obs = o;
@@ -438,7 +440,7 @@ fn run_json<T: Reg + Decode>(be: &str, st: &[W], inp: &[u8], seed: u64) -> Value
 		#[cfg(feature = "std")]
 		"io" => {
 			let mut io = parity_scale_codec::IoReader(std::io::Cursor::new(inp));
-			let r = guarded(|| run_stack::<T>(st, &mut io));
+			let r = guarded(|| if st.is_empty() { (T::decode(&mut io), crate::recin::Obs::default()) } else { run_stack::<T>(st, &mut io) });
 			consumed = Some(io.0.position() as usize);
 			r.map(|(r, o)| {
 				obs = o;
@@ -448,7 +450,7 @@ fn run_json<T: Reg + Decode>(be: &str, st: &[W], inp: &[u8], seed: u64) -> Value
 		#[cfg(feature = "std")]
 		"short" => {
 			let mut io = parity_scale_codec::IoReader(crate::recin::ShortReader { data: inp, pos: 0, state: seed });
-			let r = guarded(|| run_stack::<T>(st, &mut io));
+			let r = guarded(|| if st.is_empty() { (T::decode(&mut io), crate::recin::Obs::default()) } else { run_stack::<T>(st, &mut io) });
 			consumed = Some(io.0.pos);
 			r.map(|(r, o)| {
 				obs = o;
@@ -610,6 +612,7 @@ pub fn drive_dec<T: Reg + Encode + Decode>(ctx: &mut Ctx, mem_tracking: bool) {
 		m.insert("src".into(), json!(label));
 		m.insert("pfx".into(), json!(is_prefix));
 		m.insert("mt".into(), json!(mem_tracking));
+		m.insert("prop".into(), json!(prop));
 		let (base, okinfo) = base_run::<T>(&inp, true);
 		m.insert("base".into(), base);
 		let mut runs: Vec<Value> = Vec::new();
@@ -624,6 +627,12 @@ pub fn drive_dec<T: Reg + Encode + Decode>(ctx: &mut Ctx, mem_tracking: bool) {
 				{
 					runs.push(run_json::<T>("io", &[], &inp, 0));
 					runs.push(run_json::<T>("short", &[], &inp, g.u64()));
+				}
+			},
+			"C14" => {
+				// prefixes must be rejected, and values must end where they end, on every back-end
+				for be in BACKENDS {
+					runs.push(run_json::<T>(be, &[], &inp, g.u64()));
 				}
 			},
 			"C08" => {
@@ -725,6 +734,54 @@ pub fn drive_dec<T: Reg + Encode + Decode>(ctx: &mut Ctx, mem_tracking: bool) {
 			m.insert("skip".into(), json!({"res":res,"n":inp.len() - s.len()}));
 		}
 		ctx.emit(&tn, Value::Object(m));
+	}
+}
+
+/// C19: the counting input driven directly, over an input that only records what it is asked for, so that a single
+/// read can be longer than 2^32 bytes without the data existing (the buffer is fresh zeroed memory that is never touched)
+pub fn drive_cnt(ctx: &mut Ctx) {
+	if !ctx.wants("CountedInput") {
+		return;
+	}
+	struct LenOnly { budget: u64 }
+	impl Input for LenOnly {
+		fn remaining_len(&mut self) -> Result<Option<usize>, Error> { Ok(None) }
+		fn read(&mut self, into: &mut [u8]) -> Result<(), Error> {
+			if (into.len() as u64) > self.budget { return Err("Not enough data to fill buffer".into()) }
+			self.budget -= into.len() as u64;
+			Ok(())
+		}
+	}
+	let big: u64 = (1 << 32) + 16;
+	let plans: Vec<Vec<u64>> = vec![
+		vec![1, 2, 70000, 0, 5],
+		vec![3, big, 7],
+		vec![(1 << 32) - 1, 1, 1 << 32],
+		vec![5, 1 << 33, 9, big],          // the 2^33 read exceeds the budget and fails: it adds nothing
+	];
+	let mut g = ctx.rng_for("CountedInput", 23);
+	for (pi, plan) in plans.iter().enumerate() {
+		if ctx.tier != "thorough" && pi == 3 { continue }
+		let r = guarded(|| {
+			let mut inner = LenOnly { budget: (1u64 << 33) - 1 + g.below(1000) as u64 };
+			let mut ci = parity_scale_codec::CountedInput::new(&mut inner);
+			let mut ops = vec![];
+			let mut counts = vec![];
+			for &n in plan {
+				let ok = if n == 1 && ops.len() % 2 == 1 { ci.read_byte().is_ok() } else {
+					let mut buf = vec![0u8; n as usize];
+					ci.read(&mut buf[..]).is_ok()
+				};
+				ops.push(json!([digits(n as u128, 8), ok]));
+				counts.push(digits(ci.count() as u128, 8));
+			}
+			(ops, counts)
+		});
+		let rec = match r {
+			Ok((ops, counts)) => json!({"k":"cnt","tn":"CountedInput","res":"ok","ops":ops,"counts":counts}),
+			Err(()) => json!({"k":"cnt","tn":"CountedInput","res":"panic","ops":[],"counts":[]}),
+		};
+		ctx.emit("CountedInput", rec);
 	}
 }
 
